@@ -48,3 +48,85 @@ class Color(enum.Enum):
 
 NT = typing.NamedTuple("NT", [("k", str), ("n", int)])
 CLASSES = {c.__name__: c for c in (P, Q, Node, Tree, Box, TD, Color, NT)}
+
+
+# ---- source objects: one class per field-discovery route of serdes.get_items_iter / _make_fields_iterator ----------
+@dataclasses.dataclass
+class XY:                       # the target the sources are unmarshalled into
+    x: int
+    y: int = 0
+
+
+@dataclasses.dataclass
+class SrcDC:                    # dataclass fields (a private one is skipped)
+    x: int
+    y: int
+    _h: int = 9
+
+
+class SrcAnn:                   # class-level annotations, plain __init__
+    x: int
+    y: int
+
+    def __init__(self, x, y):
+        self.x, self.y = x, y
+
+
+class SrcSlots:                 # __slots__ only; types only in the __init__ signature
+    __slots__ = ("x", "y")
+
+    def __init__(self, x: int, y: int):
+        self.x, self.y = x, y
+
+
+class SrcSlotsPriv:             # __slots__ with a private slot, untyped
+    __slots__ = ("x", "y", "_z")
+
+    def __init__(self, x, y):
+        self.x, self.y, self._z = x, y, 7
+
+
+class SrcVars:                  # nothing declared: vars() route
+    def __init__(self, x, y):
+        self.x, self.y, self._p = x, y, 5
+
+
+class SrcSig:                   # no class-level hints, typed __init__ signature, instance __dict__
+    def __init__(self, x: int, y: int = 0):
+        self.x, self.y = x, y
+
+
+class SrcSlotsDict:             # __slots__ incl. __dict__: declared slot + vars
+    __slots__ = ("x", "__dict__")
+
+    def __init__(self, x, y):
+        self.x = x
+        self.y = y
+
+
+SrcNT = typing.NamedTuple("SrcNT", [("x", int), ("y", int)])
+
+
+class SrcMap(dict):             # a Mapping subclass
+    def __init__(self, x, y):
+        super().__init__(x=x, y=y)
+
+
+for _c in (XY, SrcDC, SrcAnn, SrcSlots, SrcSlotsPriv, SrcVars, SrcSig, SrcSlotsDict, SrcNT, SrcMap):
+    for _m in ("__repr__",):
+        pass
+    CLASSES[_c.__name__] = _c
+
+
+def _repr(self):
+    d = {}
+    for k in ("x", "y"):
+        try:
+            d[k] = getattr(self, k)
+        except AttributeError:
+            pass
+    return f"{type(self).__name__}({d})"
+
+
+for _c in (SrcAnn, SrcSlots, SrcSlotsPriv, SrcVars, SrcSig, SrcSlotsDict):
+    _c.__repr__ = _repr
